@@ -431,8 +431,7 @@ func catalogue() []Edit {
 				}
 				return true
 			})
-			// ResolveFunction does not look at the defaults of arguments: only the backend trips over them
-			e.BackendBad = site == "arg_default"
+			_ = e // since 4fd3a1e ResolveFunction resolves the defaults of arguments too: a resolver-stage rejection
 		}
 	}
 	add("ambiguous_const", "enum_named_like_include", func(p *GProg, fi int) bool {
@@ -450,7 +449,7 @@ func catalogue() []Edit {
 	for _, v := range []string{"string_for_int/const", "string_for_int/field_default", "double_for_int/const", "list_for_int/const",
 		"unknown_field_in_struct_literal/const", "unknown_field_in_struct_literal/field_default", "int_key_in_struct_literal/const",
 		"ident_key_in_struct_literal/const", "string_for_struct/const", "int_for_string/const", "nested_string_for_int/const",
-		"bool_ident_for_enum/const", "bool_ident_for_list/const"} {
+		"bool_ident_for_enum/const", "bool_ident_for_struct/const"} {
 		v := v
 		e := add("const_kind_mismatch", v, func(p *GProg, fi int) bool {
 			f := p.Files[fi]
@@ -481,8 +480,9 @@ func catalogue() []Edit {
 				f.Consts = append(f.Consts, &GConst{Name: "ZZK", T: &GType{Kind: "list", V: base("i32")}, Value: `[1, "two"]`})
 			case "bool_ident_for_enum/const":
 				f.Consts = append(f.Consts, &GConst{Name: "ZZK", T: ref(f.Enums[0].Name), Value: "true"})
-			case "bool_ident_for_list/const":
-				f.Consts = append(f.Consts, &GConst{Name: "ZZK", T: &GType{Kind: "list", V: base("i32")}, Value: "false"})
+			case "bool_ident_for_struct/const":
+				// (for lists, sets and maps the backend deliberately falls back to an empty literal: DESIGN §7, outside the catalogue)
+				f.Consts = append(f.Consts, &GConst{Name: "ZZK", T: ref(st.Name), Value: "false"})
 			}
 			return true
 		})
@@ -638,7 +638,7 @@ func targets(p *GProg) map[string]int {
 var posOrder = []string{"main", "inc", "deep"}
 
 // buildCases: all edits at all positions for the minimal base; a seeded sample for random bases.
-func buildCases(baseName string, mk func() *GProg, r *vl.Rng, exhaustive bool, perRule int, crashOnRandom bool) []*Case {
+func buildCases(baseName string, mk func() *GProg, r *vl.Rng, exhaustive bool, perRule int) []*Case {
 	var out []*Case
 	b := mk()
 	out = append(out, &Case{Base: baseName, Rule: "none", Variant: "base", Pos: "base", Prog: b, BaseProg: b, Valid: true, Recursive: true})
@@ -667,14 +667,9 @@ func buildCases(baseName string, mk func() *GProg, r *vl.Rng, exhaustive bool, p
 		c.Recursive = e.BackendBad && pos != "main" || (!e.BackendBad && !exhaustive && r.Chance(30))
 		return c
 	}
-	// each run of the stack-overflow candidate grows a 1 GB stack: one position per variant
-	crashPos := map[string]string{"const": "main", "field_default": "inc", "via_chain": "deep"}
 	if exhaustive {
 		for _, e := range cat {
 			for _, pos := range posOrder {
-				if e.Rule == "typedef_cycle_const_ident" && crashPos[e.Variant] != pos {
-					continue
-				}
 				if c := try(e, pos); c != nil {
 					out = append(out, c)
 				}
@@ -684,9 +679,6 @@ func buildCases(baseName string, mk func() *GProg, r *vl.Rng, exhaustive bool, p
 		for _, rule := range rules {
 			ids := byRule[rule]
 			got := 0
-			if rule == "typedef_cycle_const_ident" && (!crashOnRandom || !r.Chance(10)) {
-				continue // quick tier: only on the fixed program (each run has to grow a 1 GB stack)
-			}
 			for attempt := 0; attempt < 12 && got < perRule; attempt++ {
 				e := cat[ids[r.Intn(len(ids))]]
 				pos := posOrder[r.Intn(len(posOrder))]
@@ -707,4 +699,29 @@ func buildCases(baseName string, mk func() *GProg, r *vl.Rng, exhaustive bool, p
 			Args: ce.Args("@BE@", b.Files[0].Path), FlagsBad: ce.FlagsBad, TargetsBad: ce.TargetsBad, SyntaxBad: ce.SyntaxBad, Valid: ce.Valid})
 	}
 	return out
+}
+
+// regressionCases: the inputs on which the property failed before the repairs in /repo
+// (69b2ce1, 0b3502e, 58e7614, 4fd3a1e, a421c57, 035596c).  They run first.
+func regressionCases() []*Case {
+	mk := func(name string, valid, backendBad bool, lines ...string) *Case {
+		p := &GProg{Files: []*GFile{{Path: "main.thrift", Raw: lines}}}
+		return &Case{Base: "regression", Rule: "regress_" + name, Variant: name, Pos: "main", Prog: p, BaseProg: &GProg{Files: []*GFile{{Path: "main.thrift"}}},
+			Valid: valid, BackendBad: backendBad}
+	}
+	return []*Case{
+		mk("D1_typedef_cycle_const_ident", false, false, "typedef B A", "typedef A B", "const i32 x = A.foo"),
+		mk("D1_typedef_cycle_field_default", false, false, "typedef B A", "typedef A B", "struct S { 1: i32 c = B.foo }"),
+		mk("D1_typedef_cycle_via_chain", false, false, "typedef B A", "typedef A B", "typedef A C", "const list<i32> l = [1, C.foo]"),
+		mk("D2_union_second_default", false, false, "union U { 1: i32 a = 1, 2: i32 b = 2 }"),
+		mk("D3_dup_argument_name", false, false, "service S { void f(1: i32 a, 2: i32 a) }"),
+		mk("D3_dup_argument_id", false, false, "service S { void f(1: i32 a, 1: i32 b) }"),
+		mk("D3_dup_throws_name", false, false, "exception E {}", "exception F {}", "service S { void f() throws (1: E a, 2: F a) }"),
+		mk("D3_dup_throws_id", false, false, "exception E {}", "exception F {}", "service S { void f() throws (1: E a, 1: F b) }"),
+		mk("D4_bool_ident_for_enum", false, true, "enum E { A }", "const E e = true"),
+		mk("D4_bool_ident_for_struct", false, true, "struct S { 1: i32 a }", "const S s = true"),
+		mk("D5_undefined_argument_default", false, false, "service S { void f(1: i32 a = NoSuchConst) }"),
+		mk("D5_undefined_throws_default", false, false, "exception X {}", "service S { void f() throws (1: X a = NoSuchConst) }"),
+		mk("D5_valid_enum_argument_default", true, false, "enum E { A }", "service S { void f(1: E a = E.A, 2: i32 b = 3) }"),
+	}
 }
